@@ -502,6 +502,7 @@ impl<'a, 'tcx> H<'a, 'tcx> {
         };
         o.put("ty", J::s(self.tr.expr_ty(e).to_string()));
         o.put("sp", self.cx.span(e.span));
+        o.put("se", self.cx.span_end(e.span));
         if let Some(x) = self.cx.expn_inner(e.span) {
             o.put("exp", J::s(x));
         }
